@@ -132,6 +132,55 @@ theorem finv_fire (t : T) (limit : Int) (hfix : t.fixed = true) (h : FInv t) :
         (finv_now _ d (finv_filter t (·.deadline != d) h))
     · exact finv_now t limit h
 
+theorem fixed_syncAct (t : T) (q : List Writer) (a : Act) : (t.syncAct q a).1.fixed = t.fixed := by
+  cases a with
+  | send s m => simp only [T.syncAct]; split <;> rfl
+  | pause => exact fixed_pause t
+  | resume =>
+    simp only [T.syncAct]
+    split
+    · rfl
+    · split <;> rfl
+
+theorem fixed_sync (acts : List Act) : ∀ (t : T) (q : List Writer),
+    (t.sync q acts).1.fixed = t.fixed := by
+  induction acts with
+  | nil => intro t q; rfl
+  | cons a as ih => intro t q; simp only [T.sync]; rw [ih, fixed_syncAct]
+
+/-- the synchronous actions of a batch keep the flags invariant (nobody has run yet: the woken
+writers are in the queue, not in `blocked`) -/
+theorem finv_syncAct (t : T) (q : List Writer) (a : Act) (h : FInv t) : FInv (t.syncAct q a).1 := by
+  cases a with
+  | send s m =>
+    simp only [T.syncAct]
+    split
+    · exact h
+    · exact ⟨h.noPausedWrite, h.track, h.released, h.lostClosing, h.waiting, h.clearPaused⟩
+  | pause => exact finv_pause t h
+  | resume =>
+    simp only [T.syncAct]
+    split
+    · exact h
+    · rename_i htp
+      have htp' : t.tPaused = true := by simpa using htp
+      split
+      · rename_i hcs
+        refine ⟨h.noPausedWrite, ?_, h.released, h.lostClosing, h.waiting, ?_⟩
+        · intro hc
+          have := (h.track hc).1
+          rw [hcs, htp'] at this; cases this
+        · intro hc; simp only [] at hc; rw [hcs] at hc; cases hc
+      · exact ⟨h.noPausedWrite, fun _ => (by simp [T.resumed]),
+               fun _ => ⟨rfl, rfl⟩, h.lostClosing,
+               fun hb => absurd rfl hb, fun hc => (by cases hc)⟩
+
+theorem finv_sync (acts : List Act) : ∀ (t : T) (q : List Writer), FInv t →
+    FInv (t.sync q acts).1 := by
+  induction acts with
+  | nil => intro t q h; exact h
+  | cons a as ih => intro t q h; simp only [T.sync]; exact ih _ _ (finv_syncAct t q a h)
+
 theorem finv_step (t : T) (e : Event) (hfix : t.fixed = true) (h : FInv t) : FInv (step t e).1 := by
   unfold step
   cases e with
@@ -187,6 +236,9 @@ theorem finv_step (t : T) (e : Event) (hfix : t.fixed = true) (h : FInv t) : FIn
       · exact ⟨h.noPausedWrite, fun hc => (by cases hc), h.released, fun _ => rfl, h.waiting,
                h.clearPaused⟩
       · exact finv_connectionLost t hfix h
+  | batch acts flags =>
+    simp only []
+    exact finv_wakeAll _ _ _ (by rw [fixed_sync]; exact hfix) (finv_sync acts t [] h)
 
 theorem fixed_step (t : T) (e : Event) : (step t e).1.fixed = t.fixed := by
   unfold step
@@ -230,6 +282,9 @@ theorem fixed_step (t : T) (e : Event) : (step t e).1.fixed = t.fixed := by
     · split
       · rfl
       · unfold T.connectionLost; simp only []; rw [fixed_wakeAll]
+  | batch acts flags =>
+    simp only []
+    rw [fixed_wakeAll, fixed_sync]
 
 theorem finv_run (es : List Event) : ∀ (t : T), t.fixed = true → FInv t → FInv (run t es).1 := by
   induction es with
